@@ -17,8 +17,8 @@ const opsPkg = "lib/opshell"
 
 func init() {
 	register("C19", &propDef{
-		Run: checkC19,
-		Explanation: "Static decision of the mute state machine's structure in lib/opshell. (1) Who mutes: the only store of true into Shell.silenced is in the control-character callback, below the key == 0x0F (Ctrl+O) edge and below the 'not already muted' edge; on the already-muted edge nothing is written and the timer is not touched, so repeated Ctrl+O cannot postpone un-muting. (2) Who is muted: Shell.silenced is read only by the plain-write function, the callback and the timer function; Logf/logf and the non-plain branch of the output handler never consult it, so status and log lines are always written; the terminal write of plain output is below the not-silenced edge. (3) Un-mute guard: the only store of false is in the timer function, below the edge on which time.Since(lastPlainWrite) has reached PlainWritePause (the constant 2s), and is followed by the announcement; on the other edge the timer is re-armed. (4) The timer is armed on the muting path and on every suppressed plain write, which also records the time of that write; resetSilenceTimer arms the one timer for lastPlainWrite+PlainWritePause. (5) All accesses to silenced / lastPlainWrite and all timer resets happen with Shell.wL held. When the timer actually fires (wall-clock behaviour) is not decided.",
+		Run:         checkC19,
+		Explanation: "Static decision of the mute state machine's structure in lib/opshell. (1) Who mutes: the only store of true into Shell.silenced is in the control-character callback, below the key == 0x0F (Ctrl+O) edge and below the 'not already muted' edge; on the already-muted edge nothing is written and the timer is not touched, so repeated Ctrl+O cannot postpone un-muting. (2) Who is muted: Shell.silenced is read only by the plain-write function, the callback and the timer function; Logf/logf and the non-plain branch of the output handler never consult it, so status and log lines are always written; the terminal write of plain output is below the not-silenced edge. (3) Un-mute guard: the only store of false is in the timer function, below the edge on which time.Since(lastPlainWrite) has reached PlainWritePause (the constant 2s), and is followed by the announcement; on the other edge the timer is re-armed. (4) The timer is armed on the muting path and on every suppressed plain write, which also records the time of that write; resetSilenceTimer arms the one timer for lastPlainWrite+PlainWritePause. (5) All accesses to silenced / lastPlainWrite and all timer resets happen with Shell.wL held. When the timer actually fires (wall-clock behaviour) is not decided. Also: on the muting path and on every suppressed write both the time store and the timer reset are passed; resetSilenceTimer resets on all paths; writePlain is called only from the output path; and the control-key callback does not acquire Shell.wL on its own stack while some function holds wL across a goxterm.Terminal call (lock order).",
 		Assumptions: []string{"time.AfterFunc/Timer.Reset run the function once after the duration; goxterm calls ControlCharacterCallback for control keys"},
 	})
 }
